@@ -218,6 +218,22 @@ def r6_canvases(rule, root=None):
         rule.bad("Canvas3|begin_drag|mode", "Canvas3::begin_drag must create a pan handle for Pan and a rotate handle for Rotate", A.where(fn))
 
 
+def r7_stale_handle(rule, root=None):
+    """a pan handle caches the view matrix of the moment it was created; a canvas operation that changes the
+    scale while a drag is stored must refresh (or drop) the handle, or the next drag step re-centres with the old scale"""
+    st = A.find_item(GUI, "StructDef", "TranslateHandle", root)
+    cached = [f["name"] for f in st["fields"] if f["name"] in ("initial_mat",)]
+    for ty in ("Canvas2", "Canvas3"):
+        fn = vfn(ty, "zoom", root)
+        t = txt(fn["body"])
+        if not cached:
+            rule.ok("%s::zoom: translate handles hold no cached matrix" % ty)
+        elif "self.drag_start" in t:
+            rule.ok("%s::zoom refreshes the stored pan handle after changing the scale" % ty, file=GUI, line=fn["ln"])
+        else:
+            rule.bad("%s|zoom|stale-handle" % ty, "%s::zoom changes the view's scale but leaves a stored pan handle untouched; the handle caches the pre-zoom matrix (TranslateHandle.%s), so the next drag step no longer keeps the grabbed point under the cursor" % (ty, cached[0]), A.where(fn))
+
+
 def run(ctx):
     r = ctx.rule("R1", "world_to_model = translate x rotate x scale of the view's own components", 9)
     ctx.guarded(r, r1_matrix)
@@ -231,3 +247,5 @@ def run(ctx):
     ctx.guarded(r, r5_handles)
     r = ctx.rule("R6", "canvases adopt the image size first, OR their flags, keep drags idempotent", 10)
     ctx.guarded(r, r6_canvases)
+    r = ctx.rule("R7", "zooming during a pan refreshes the handle's cached matrix", 2)
+    ctx.guarded(r, r7_stale_handle)
